@@ -194,15 +194,17 @@ func RunReal(F *RFuncs, c Config, r *rand.Rand) (*Outcome, []string) {
 	}
 	// every goroutine started by the emitted code and the environment must be gone
 	leaked := true
-	for i := 0; i < 2000; i++ {
+	for i := 0; i < 4000; i++ { // up to ~3 s on a loaded machine; normally the first iteration succeeds
 		if runtime.NumGoroutine() <= base {
 			leaked = false
 			break
 		}
 		if i < 50 {
 			runtime.Gosched()
-		} else {
+		} else if i < 1000 {
 			time.Sleep(50 * time.Microsecond)
+		} else {
+			time.Sleep(time.Millisecond)
 		}
 	}
 	if leaked {
